@@ -88,7 +88,8 @@ func newPkg(pkg *packages.Package, u *Universe) Package {
 	}
 
 	fileLineFor := func(pos token.Pos, deltaLine int) fileLine {
-		position := p.Package.Fset.Position(pos)
+		// the line in the file itself: //line directives renumber what follows them
+		position := p.Package.Fset.PositionFor(pos, false)
 		return fileLine{position.Filename, position.Line + deltaLine}
 	}
 
@@ -388,7 +389,7 @@ func (p *pkgInfo) Comment(pos token.Pos) []string {
 }
 
 func (p *pkgInfo) priorCommentLines(pos token.Pos, deltaLines int) *ast.CommentGroup {
-	position := p.Package.Fset.Position(pos)
+	position := p.Package.Fset.PositionFor(pos, false)
 	key := fileLine{position.Filename, position.Line + deltaLines}
 	if deltaLines == 0 {
 		// should ignore trailing comments
